@@ -3,25 +3,25 @@
 # property -> contract modules that carry obligations for it
 PROPERTY_MODULES = {
     "C16": ["selection", "choicemap", "core_gfi", "combinators"],
-    "C08": ["combinators", "pjax_vmap"],
-    "C14": ["seed", "pjax_vmap", "state"],
-    "C19": ["state"],
+    "C08": ["combinators", "pjax_vmap", "extra"],
+    "C14": ["seed", "pjax_vmap", "state", "extra"],
+    "C19": ["state", "extra"],
     "C20": ["state_space"],
-    "C11": ["adev"],
-    "C15": ["adev"],
-    "C13": ["distributions", "pjax_vmap"],
+    "C11": ["adev", "extra"],
+    "C15": ["adev", "extra"],
+    "C13": ["distributions", "pjax_vmap", "extra"],
     "C17": ["vi", "choicemap", "core_gfi", "adev"],
-    "C10": ["smc", "core_gfi", "combinators", "lemmas"],
+    "C10": ["smc", "core_gfi", "combinators", "lemmas", "extra"],
     "C12": ["smc"],
     "C18": ["mcmc", "state"],
     "C09": ["mcmc", "core_gfi", "combinators", "choicemap", "selection"],
-    "C06": ["seed"],
-    "C07": ["seed"],
+    "C06": ["seed", "extra"],
+    "C07": ["seed", "extra"],
     "C01": ["core_gfi", "combinators", "lemmas", "choicemap"],
     "C02": ["core_gfi", "combinators", "lemmas", "pjax_vmap"],
     "C03": ["core_gfi", "combinators", "lemmas", "choicemap"],
     "C04": ["core_gfi", "combinators", "selection"],
-    "C05": ["core_gfi", "combinators", "lemmas", "mcmc"],
+    "C05": ["core_gfi", "combinators", "lemmas", "mcmc", "extra"],
 }
 
 A_REAL = "A-REAL: machine floats are treated as mathematical reals and ints as mathematical ints (no rounding, overflow, nan/inf)"
